@@ -561,7 +561,26 @@ _BuiltinMethod = type("".join)
 _MethodDescr = type(str.join)
 
 
+# ---- access observer (data-race analysis of C11): container accesses made by instrumented code are reported --------------------------------
+ACCESS_OBSERVER = None        # callable(container, "r" | "w", frame of the instrumented code)
+_CONTAINERS = (list, dict, bytearray, set)
+_MUTATORS = frozenset(("append", "extend", "insert", "pop", "remove", "clear", "sort", "reverse", "update", "setdefault", "popitem", "add", "discard",
+                       "__setitem__", "__delitem__", "__iadd__", "appendleft", "popleft"))
+
+
+def sx_touch(obj, rw):
+    if ACCESS_OBSERVER is not None and type(obj) in _CONTAINERS:
+        ACCESS_OBSERVER(obj, rw, sys._getframe(1))
+
+
+def _observe(obj, rw):
+    if type(obj) in _CONTAINERS:
+        ACCESS_OBSERVER(obj, rw, sys._getframe(2))
+
+
 def sx_call(f, *a, **k):
+    if ACCESS_OBSERVER is not None and type(f) is _BuiltinMethod:
+        _observe(f.__self__, "w" if f.__name__ in _MUTATORS else "r")
     try:
         h = INTRINSICS.get(f)
     except TypeError:
@@ -713,6 +732,8 @@ def _symtuple(k):
 
 
 def sx_in(a, b):
+    if ACCESS_OBSERVER is not None:
+        _observe(b, "r")
     if _symtuple(a) and isinstance(b, dict):
         return _dict_find(b, a) is not _MISSING
     if isinstance(a, SymInt):
@@ -761,6 +782,8 @@ def sx_in(a, b):
 
 
 def sx_getitem(d, k):
+    if ACCESS_OBSERVER is not None:
+        _observe(d, "r")
     if _symtuple(k) and isinstance(d, dict):
         x = _dict_find(d, k)
         if x is _MISSING:
@@ -798,6 +821,8 @@ def sx_getitem(d, k):
 
 
 def sx_setitem(d, k, v):
+    if ACCESS_OBSERVER is not None:
+        _observe(d, "w")
     if (isinstance(k, Sym) or _symtuple(k)) and isinstance(d, dict):
         x = _dict_find(d, k)
         if x is not _MISSING:
@@ -814,6 +839,8 @@ def sx_setitem(d, k, v):
 
 
 def sx_delitem(d, k):
+    if ACCESS_OBSERVER is not None:
+        _observe(d, "w")
     if isinstance(d, dict) and (isinstance(k, Sym) or _symtuple(k) or _has_symkey(d)):
         x = _dict_find(d, k)
         if x is _MISSING:
